@@ -19,7 +19,7 @@ import (
 )
 
 type C11Op struct {
-	Op   string   `json:"op"` // load | loadc | edit | clear | remove | restore
+	Op   string   `json:"op"` // load | loadc | edit | clear | remove | restore | retouch (one character changes; length and modification time stay)
 	Root int      `json:"root,omitempty"`
 	File int      `json:"file,omitempty"`
 	Dirs []IncDir `json:"dirs,omitempty"`
@@ -132,8 +132,12 @@ func c11Check(c *C11Case) (ds []ev.Discrepancy, classes []string) {
 	defer os.Setenv("HOME", oldHome)
 	dirs := make([][]IncDir, c.N)
 	body := make([]int, c.N)
+	rev := make([]int, c.N) // a one-digit revision mark in a closing comment line
+	text := func(i int) string {
+		return c11FileText(root, c.N, i, dirs[i], body[i]) + fmt.Sprintf("; rev %d\n", rev[i]%10)
+	}
 	write := func(i int) {
-		if err := os.WriteFile(c10Path(root, i), []byte(c11FileText(root, c.N, i, dirs[i], body[i])), 0o644); err != nil {
+		if err := os.WriteFile(c10Path(root, i), []byte(text(i)), 0o644); err != nil {
 			panic(err)
 		}
 	}
@@ -165,6 +169,24 @@ func c11Check(c *C11Case) (ds []ev.Discrepancy, classes []string) {
 			if loads > 0 {
 				cls["edit-between-loads"] = true
 			}
+		case "retouch":
+			// an edit that a look at size and modification time does not show (a restored copy, a tool
+			// that keeps time stamps): the loader is told all the same
+			if gone[op.File] {
+				continue
+			}
+			st, serr := os.Stat(c10Path(root, op.File))
+			rev[op.File]++
+			write(op.File)
+			if serr == nil {
+				_ = os.Chtimes(c10Path(root, op.File), st.ModTime(), st.ModTime())
+			}
+			shared.InvalidateFile(c10Path(root, op.File))
+			edits++
+			if loads > 0 {
+				cls["edit-between-loads"] = true
+				cls["edit-keeping-size-and-time"] = true
+			}
 		case "remove":
 			// the file disappears from disk (a change on disk like any other), and the loader is told
 			_ = os.Remove(c10Path(root, op.File))
@@ -190,7 +212,7 @@ func c11Check(c *C11Case) (ds []ev.Discrepancy, classes []string) {
 				r1, e1 = shared.Load(p)
 				r2, e2 = fresh.Load(p)
 			} else {
-				txt := c11FileText(root, c.N, op.Root, dirs[op.Root], body[op.Root])
+				txt := text(op.Root)
 				r1, e1 = shared.LoadFromContent(p, txt)
 				r2, e2 = fresh.LoadFromContent(p, txt)
 			}
@@ -260,7 +282,9 @@ func genC11(t *rapid.T) *C11Case {
 			c.Ops = append(c.Ops, C11Op{Op: "restore", File: rapid.IntRange(0, n-1).Draw(t, "file")})
 		case 0:
 			c.Ops = append(c.Ops, C11Op{Op: "clear"})
-		case 1, 2, 3:
+		case 3:
+			c.Ops = append(c.Ops, C11Op{Op: "retouch", File: rapid.IntRange(0, n-1).Draw(t, "file")})
+		case 1, 2:
 			c.Ops = append(c.Ops, C11Op{Op: "edit", File: rapid.IntRange(0, n-1).Draw(t, "file"), Dirs: genDirs(t, n, 3), Body: rapid.IntRange(0, 2).Draw(t, "body")})
 		case 4, 5:
 			c.Ops = append(c.Ops, C11Op{Op: "loadc", Root: rapid.IntRange(0, n-1).Draw(t, "root")})
